@@ -5,6 +5,8 @@ package sx
 // this representation (no division by 1e9 ever reaches the solver); durations are int64
 // nanoseconds as in Go. The zero Time is ext = 0.
 
+import "time"
+
 func (x *Exec) timeNs(v Value) *Term { return v.(*StructVal).F[1].(*Term) }
 
 func (x *Exec) mkTime(proto Value, ns *Term) Value {
@@ -68,7 +70,13 @@ func init() {
 	RegisterIntrinsic("(time.Time).UTC", func(x *Exec, s *State, c *CallCtx) Value { return c.Args[0] })
 	RegisterIntrinsic("(time.Time).Local", func(x *Exec, s *State, c *CallCtx) Value { return c.Args[0] })
 	RegisterIntrinsic("(time.Time).Format", func(x *Exec, s *State, c *CallCtx) Value {
-		// the rendered timestamp is not inspected: a fixed-width placeholder
+		// concrete instant and layout: the real rendering (UTC); otherwise the rendered timestamp is
+		// not inspected: a fixed-width placeholder
+		if ns := x.timeNs(c.Args[0]); ns.IsConst() {
+			if layout, ok := x.concreteStr(c.Args[1].(*StrVal)); ok {
+				return x.str(time.Unix(0, ns.SVal()).UTC().Format(layout))
+			}
+		}
 		return x.str("Thu, 01 Jan 2026 00:00:00 +0000 (UTC)")
 	})
 	RegisterIntrinsic("(time.Duration).String", func(x *Exec, s *State, c *CallCtx) Value { return x.str("1s") })
